@@ -19,6 +19,13 @@ def run(ctx):
         # 2. every case of the table, with its predicted verdict
         cases = ctx.behaviours("data", "Gen_TxAuth", "Gen_TxAuth.cfg",
                                constants=dict(FULL, MaxOps=1, Depth=1, MaxTreat=4), timeout=1800)
+        # 3. histories of two verifications of the SAME transaction content (same id) in one process: the second verdict
+        #    must not depend on the first (no cache of verified ids)
+        r2 = ctx.model_check("data", "MC_TxAuth", "MC_TxAuthTwin.cfg", constants=dict(FULL, MaxOps=2, MaxTreat=4),
+                             coverage=True, timeout=900, label="twins")
+        ctx.check_coverage(r2, ["Len(hist) = 0", "Resubmit"])
+        cases += ctx.behaviours("data", "Gen_TxAuth", "Gen_TxAuthTwin.cfg",
+                                constants=dict(FULL, MaxOps=2, Depth=2, MaxTreat=4), timeout=1800)
     inp = ctx.path("in", "cases.ndjson")
     with open(inp, "w") as fh:
         for b in cases:
